@@ -11,6 +11,15 @@ TB = ("Trusted: Lean 4.33 kernel; axioms ⊆ {propext, Classical.choice, Quot.so
       "(constants/tables regenerated from /repo) and the differential correspondence stream; ")
 
 NOTES = {
+    "C12": {
+        "text": "Kernel-checked composition of the TLV refinement, the list-view refinement and the decoding theorems: on any canonical account state, init either fails leaving the bytes identical (list "
+                "already present, or fewer than 12 + 4 + 35 n free bytes) or appends an entry whose value decodes to exactly the given configs; update likewise replaces the entry (longer, shorter, equal) or "
+                "fails unchanged (missing list, no room); in a zeroed buffer of size_of(n) init succeeds and reads back exactly while one byte less fails; lists of other instructions read the same before and "
+                "after; a second init is rejected; malformed bytes give errors, not panics.",
+        "design_ref": "§5 C12",
+        "note": TB + "fail-safety on openable but non-canonical accounts (garbage behind the terminator) is covered by the stream, not by a theorem.",
+        "technique": "Lean 4 theorem (composition of two refinements, all account states / config lists) + differential correspondence on raw buffers with read-back oracle",
+    },
     "C06": {
         "text": "Kernel-checked for any PDA function and fetcher: de_escalate yields a non-signer that is writable iff the resolved meta is writable and the key is absent from or writable somewhere in the "
                 "instruction; both helpers leave the pre-existing metas as an untouched prefix and append exactly one de-escalated meta per stored config, so every appended meta is non-signer, writable only "
